@@ -218,6 +218,32 @@ var c11Families = []c11Family{
 		fails:  func(o *Obj, par int) bool { return o.A == 0 },
 	},
 	{
+		name: "builtins-strings",
+		script: func(tag string, par int) string {
+			return fmt.Sprintf("p = split(S, \"l\"); u = upper(trim(\" \" + S + \" \")); j = join(sort(split(\"b,a,c\", \",\")), \"-\"); return len(p) + len(keys({\"x\": 1, \"y\": A})) + len(sprintf(\"%%d-%%s\", A, lower(u))) > %d && j == \"a-b-c\";", 4+par%6)
+		},
+		init: func(e *evalfilter.Eval, par int) {},
+		step: func(s int64, o *Obj, par int) (int64, bool, []int64) {
+			n := len(strings.Split(o.S, "l")) + 2 + len([]rune(fmt.Sprintf("%d-%s", o.A, strings.ToLower(strings.ToUpper(strings.TrimSpace(" "+o.S+" "))))))
+			return s, n > 4+par%6, nil
+		},
+		state0: func(par int) int64 { return 0 },
+	},
+	{
+		name: "builtins-time",
+		script: func(tag string, par int) string {
+			return fmt.Sprintf("t = 1700000000 + A * 3600 + B * 86400; return hour(t) + day(t) + month(t) + minute(t) > %d || weekday(t) == \"Monday\" || year(t) < 2000;", 30+par%10)
+		},
+		init: func(e *evalfilter.Eval, par int) {},
+		step: func(s int64, o *Obj, par int) (int64, bool, []int64) {
+			ts := time.Unix(1700000000+int64(o.A)*3600+int64(o.B)*86400, 0).In(c11Zone)
+			hr, mn, _ := ts.Clock()
+			yr, mo, dy := ts.Date()
+			return s, hr+dy+int(mo)+mn > 30+par%10 || ts.Weekday().String() == "Monday" || yr < 2000, nil
+		},
+		state0: func(par int) int64 { return 0 },
+	},
+	{
 		name: "predicate-builtins",
 		script: func(tag string, par int) string {
 			return fmt.Sprintf("return upper(S) == \"AB\" || len(Items) > %d || (C > 0 && min(A, B) == B);", par%4)
@@ -233,6 +259,18 @@ var c11Families = []c11Family{
 		state0: func(par int) int64 { return 0 },
 	},
 }
+
+// c11Zone is the zone the engine's time helpers use ($TZ, UTC if unset).
+var c11Zone = func() *time.Location {
+	env := os.Getenv("TZ")
+	if env == "" {
+		env = "UTC"
+	}
+	if loc, err := time.LoadLocation(env); err == nil {
+		return loc
+	}
+	return time.Local
+}()
 
 // ---- recorded history ----
 
@@ -254,6 +292,7 @@ type c11Op struct {
 type c11Eval struct {
 	fam    *c11Family
 	par    int
+	guard  bool // the script starts with a statement that fails for objects with C == -1
 	e      *evalfilter.Eval
 	ctx    *verifsim.SimContext
 	shared bool
@@ -284,6 +323,9 @@ func (ev *c11Eval) take(task int) []int64 {
 
 func (ev *c11Eval) build() error {
 	ev.text = ev.fam.script(ev.tag, ev.par)
+	if ev.guard {
+		ev.text = "zz = 1 / (C + 1); " + ev.text
+	}
 	ev.e = evalfilter.New(ev.text)
 	ev.e.AddFunction("emit", func(args []object.Object) object.Object {
 		verifsim.Yield(verifsim.YHost, 0)
@@ -322,8 +364,11 @@ func (p *c11) Run(c *verifsim.Chooser, st *Stats, render bool) *Outcome {
 	verifsim.DiscardStdout()
 	defer verifsim.CaptureStdout()
 
-	nEvals := 1 + c.Intn(2)
-	nTasks := 2 + c.Intn(3)
+	nEvals := 1
+	if c.Intn(3) == 2 {
+		nEvals = 2
+	}
+	nTasks := 2 + c.Intn(4)
 	var evals []*c11Eval
 	// half of the runs use one script text for every evaluator: state that
 	// leaks between evaluators through something keyed by the text (interned
@@ -335,6 +380,8 @@ func (p *c11) Run(c *verifsim.Chooser, st *Stats, render bool) *Outcome {
 		if sameText {
 			ev.fam, ev.par = &c11Families[famAll], parAll
 		}
+		// error paths: every family may get a guard that fails on some objects
+		ev.guard = c.Intn(2) == 1
 		if ev.fam.regexp && c.Intn(4) == 1 {
 			// a pattern text nobody has compiled yet in this process: both
 			// tasks miss the package-level regexp cache
@@ -519,7 +566,7 @@ func (p *c11) Run(c *verifsim.Chooser, st *Stats, render bool) *Outcome {
 				return
 			}
 		}
-		fam, par := ev.fam, ev.par
+		fam, par, guard := ev.fam, ev.par, ev.guard
 		model := porcupine.Model{
 			Init: func() interface{} { return fam.state0(par) },
 			Step: func(state, in, out interface{}) (bool, interface{}) {
@@ -528,6 +575,10 @@ func (p *c11) Run(c *verifsim.Chooser, st *Stats, render bool) *Outcome {
 				ou := out.(c11Out)
 				if i.isRead {
 					return ou.readVal == s, s
+				}
+				if guard && i.obj.C == -1 {
+					// the guard statement fails before anything else happens
+					return ou.failed && ou.emitted == "[]", s
 				}
 				ns, verdict, emitted := fam.step(s, &i.obj, par)
 				em := "[]"
